@@ -57,9 +57,22 @@ def _split_long_branches(
     for branch, type, length in zip(branches, types, pathlengths):
         num_subbranches = 1
         split_branch = [branch]
+        # The segment from a single-point soma to the first point of a neurite has no
+        # length (see `_compute_pathlengths`). It must not become a piece of its own (a
+        # branch of length zero): it always stays with the first piece.
+        starts_at_soma = (
+            is_single_point_soma
+            and len(branch) > 2
+            and int(content[int(branch[0]) - 1, 1]) == 1
+            and int(content[int(branch[1]) - 1, 1]) != 1
+        )
         while length > max_branch_len:
             num_subbranches += 1
-            split_branch = _split_branch_equally(branch, num_subbranches)
+            if starts_at_soma:
+                split_branch = _split_branch_equally(branch[1:], num_subbranches)
+                split_branch[0] = branch[: len(split_branch[0]) + 1]
+            else:
+                split_branch = _split_branch_equally(branch, num_subbranches)
             lengths_of_subbranches = _compute_pathlengths(
                 split_branch,
                 coords=content[:, 1:6],
